@@ -1,5 +1,5 @@
 import CoercionModel.Proofs.Engine
-import CoercionModel.Proofs.Translated
+import CoercionModel.Proofs.TranslatedGates
 set_option linter.unusedSimpArgs false
 /-
   C06 — Bypass and pre-check gating: what must not run does not run.
